@@ -152,6 +152,72 @@ fn data_slots() {
     let _ = root.get_data();
 }
 
+/// one thread keeps replacing and clearing a node's data while another keeps reading it: the slot is the only owner of
+/// each payload, so a reader must never be left with a payload the writer has released
+fn data_churn() {
+    let (g, _) = tree();
+    let root: Node = SyntaxNode::new_root(g);
+    thread::scope(|s| {
+        s.spawn(|| {
+            for i in 0..5u32 {
+                drop(root.set_data(i));
+                root.clear_data();
+                let _ = root.try_set_data(i + 100);
+                drop(root.set_data(i + 200));
+            }
+        });
+        s.spawn(|| {
+            for _ in 0..12 {
+                if let Some(a) = root.get_data() {
+                    assert!(*a < 1000);
+                }
+            }
+        });
+    });
+}
+
+/// a freshly created tree is shared by reference and every read-only accessor is called for the first time from several
+/// threads at once (whatever a method memoises on first use sits behind the handle's `Sync` promise)
+fn cold_calls() {
+    use cstree::text::{TextRange, TextSize};
+    use std::hash::{Hash, Hasher};
+    let (g, i) = tree();
+    let root: cstree::syntax::ResolvedNode<K, u32> = SyntaxNode::new_root_with_resolver(g, i);
+    thread::scope(|s| {
+        for t in 0..3usize {
+            let root = &root;
+            s.spawn(move || {
+                let mut acc = 0usize;
+                let mut stack: Vec<&cstree::syntax::ResolvedNode<K, u32>> = vec![root];
+                while let Some(n) = stack.pop() {
+                    acc += n.arity() + n.arity_with_tokens();
+                    acc += n.syntax_kind().0 as usize + n.kind().0 as usize;
+                    let r = n.text_range();
+                    acc += usize::from(r.len());
+                    let _ = n.green().kind();
+                    acc += n.parent().is_some() as usize;
+                    acc += n.first_child().is_some() as usize + n.last_child().is_some() as usize;
+                    acc += n.first_token().is_some() as usize + n.last_token().is_some() as usize;
+                    acc += n.next_sibling().is_some() as usize + n.prev_sibling().is_some() as usize;
+                    acc += n.children().count() + n.descendants().count() + n.preorder().count() + n.ancestors().count();
+                    acc += n.get_data().is_some() as usize;
+                    if !r.is_empty() {
+                        acc += n.token_at_offset(r.start()).count();
+                        let _ = n.covering_element(TextRange::new(r.start(), r.start() + TextSize::from(1)));
+                    }
+                    let mut h = std::collections::hash_map::DefaultHasher::new();
+                    n.hash(&mut h);
+                    acc += (h.finish() & 1) as usize + (n == root) as usize;
+                    acc += format!("{:?}{}", n, n).len();
+                    let kids: Vec<_> = if t % 2 == 0 { n.children().collect() } else { let mut v: Vec<_> = n.children().collect(); v.reverse(); v };
+                    stack.extend(kids);
+                }
+                assert!(acc > 0);
+            });
+        }
+    });
+}
+
 /// a resolved tree (interner attached) read from two threads
 fn resolved() {
     let (g, i) = tree();
@@ -239,6 +305,8 @@ pub const PROGRAMS: &[(&str, fn())] = &[
     ("race_create", race_create),
     ("inner_handles", inner_handles),
     ("data_slots", data_slots),
+    ("data_churn", data_churn),
+    ("cold_calls", cold_calls),
     ("resolved", resolved),
     ("green_share", green_share),
     ("green_tokens", green_tokens),
